@@ -155,8 +155,11 @@ def check_label_indexing(P, R, f, contract_0_k=False, rule="IDX.I1"):
                     )
             elif isinstance(idx, ast.Name) and lp.pos_var and idx.id == lp.pos_var:
                 n += 1
-                same = src_lp.coll == lp.coll and (src_lp.kind == lp.kind or lp.kind != "set")
-                R.check(same, rule, f.key, f"{src(s)} ({name} built over {coll})", "position in the same enumeration", f"position from enumerating `{lp.coll}` indexes a sequence built over `{src_lp.coll}`", s.lineno)
+                # the same collection walked in the same way: both sorted, or both in the iteration order of the same (unmodified)
+                # set / list.  A set walked as it iterates and walked sorted are two different orders as soon as the ids are not
+                # small consecutive integers
+                same = src_lp.coll == lp.coll and src_lp.kind == lp.kind
+                R.check(same, rule, f.key, f"{src(s)} ({name} built over {coll})", "position in the same enumeration", f"position from enumerating `{lp.coll}` ({lp.kind} order) indexes a sequence built over `{src_lp.coll}` ({src_lp.kind} order): entry k of the sequence belongs to another class than the k-th class visited whenever the two orders differ (set iteration order is not sorted order for negative, large or hash-colliding ids)", s.lineno)
     return n, colls, loops, conts
 
 
